@@ -41,7 +41,52 @@ def load():
     _filtered("c07", "survey")
     _filtered("c04rep", "rep")
     _filtered("c04req", "req")
+    PROVIDERS.append(("pair1poly", pair1poly_history))
     return PROVIDERS
+
+
+def pair1poly_history(seed, tier, i):
+    """PAIR1 in polyamorous mode (src/sp/protocol/pair1/pair1_poly.c: several peers at once, per-pipe send queues, one
+    receive queue): no protocol model of its own; its histories feed the protocol-independent judges (poll/non-blocking
+    agreement, ownership, allocator balance) and the allocation-failure sweeps"""
+    from . import core
+    r = core.Rng(seed, "POLY", tier, i)
+    ops = ["open pair1poly"]
+    if r.chance(1, 2):
+        ops.append(f"setopt - recv-buffer int {r.choice([0, 1, 2, 8])}")
+    if r.chance(1, 2):
+        ops.append(f"setopt - send-buffer int {r.choice([0, 1, 2, 8])}")
+    npipes, live, busy, n = 0, [], set(), 0
+    for _ in range(r.range(8, 40)):
+        k = r.below(100)
+        free = [a for a in range(16) if a not in busy]
+        if k < 14 and npipes < 5:
+            ops.append("pipe_add 0011"); live.append(npipes); npipes += 1
+        elif k < 20 and live:
+            p_ = r.choice(live); live.remove(p_); ops.append(f"pipe_drop {p_}")
+        elif k < 42 and live:
+            n += 1
+            hops = r.choice(["00000001", "00000001", "00000002", "00000008", "00000009", "000000", "01000001"])
+            ops.append(f"recv_done {r.choice(live)} {hops}{n:04x}{r.bytes(r.choice([0, 1, 5])).hex()}")
+        elif k < 60 and free:
+            a = r.choice(free); m = r.choice(["nb", "nb", "inf", "20"])
+            ops.append(f"recv - {a} {m}")
+            if m != "nb":
+                busy.add(a)
+        elif k < 80 and free:
+            a = r.choice(free); n += 1; m = r.choice(["nb", "nb", "inf", "20"])
+            ops.append(f"send - {a} - {n:04x}{r.bytes(r.choice([0, 2])).hex()} {m}")
+            if m != "nb":
+                busy.add(a)
+        elif k < 90 and npipes:
+            ops.append(f"send_done {r.below(npipes)} {0 if r.chance(9, 10) else 7}")
+        elif k < 94 and busy:
+            a = r.choice(sorted(busy)); ops.append(f"cancel {a}")
+        elif k < 97:
+            ops.append(f"advance {r.choice([1, 21, 50])}"); busy.clear()
+        else:
+            ops.append("poll")
+    return ops
 
 
 def histories(seed, tier, n, prop):
